@@ -1,3 +1,6 @@
 import XfemmVerif.Scalar
 import XfemmVerif.Model.Sparse
 import XfemmVerif.Model.Markers
+import XfemmVerif.Model.Exit
+import XfemmVerif.Model.Refs
+import XfemmVerif.Model.ESolver
